@@ -9,7 +9,7 @@ from harness import common, layerb as B, schemes as S, textcommon as T
 from univers.version_constraint import VersionConstraint
 from univers.version_range import VersionRange
 
-MODULES = ["Univers.Props.C13"]
+MODULES = ["Univers.Props.C13", "Univers.Props.Schemes"]
 LEVEL = "proof"
 RULE = ("(1) vers text layer of the real code against the Lean model (decorated spellings included); (2) per scheme, seeded "
         "well-formed ranges: permutations of the constraint list and of the text, whitespace insertion, letter case of 'vers:' "
